@@ -420,4 +420,73 @@ Section Buffer.
       destruct H as (HI' & Hlt & Hle & HM).
       apply (Post_rec st st'); try lia. apply IH; auto. lia.
   Qed.
+
+  (* ---- Next, newLexer and the token loop ------------------------------------------------------- *)
+  Definition Good (r : lres) (m : nat) : Prop :=
+    match r with
+    | LTok t st =>
+        pos st <= n + 2 /\ (exists l, indents st = l ++ [0]) /\ (ttype t <> TEOF -> pos st <= n) /\
+        (ttype t = TEOF -> tval t = [] /\ unind st = 0) /\ M st < m
+    | LErr _ => True
+    | LInternal | LDeep => False
+    end.
+
+  Lemma Good_mono r m m' : Good r m -> m <= m' -> Good r m'.
+  Proof. destruct r; cbn; auto. intros (H1 & H2 & H3 & H4 & H5) Hm. repeat split; auto; try lia; apply H4; auto. Qed.
+
+  Lemma lnext_ok f st : n + 3 <= f -> Inv st -> Post st (lnext isld B f st).
+  Proof.
+    intros Hf HI. unfold lnext. pose proof (next_token_ok f st HI ltac:(lia)) as H.
+    destruct (next_token isld B f st); auto.
+  Qed.
+
+  Lemma Post_Good st r : Post st r -> Good r (M st).
+  Proof. destruct r; cbn; auto. intros (H1 & H2 & H3 & H4 & H5 & H6). repeat split; auto; apply H4; auto. Qed.
+
+  Lemma Good_Inv t st m : Good (LTok t st) m -> ttype t <> TEOF \/ pos st <= n -> Inv st.
+  Proof.
+    cbn. intros (H1 & H2 & H3 & H4 & H5) Hc. unfold Inv.
+    destruct Hc as [Hc|Hc]; [specialize (H3 Hc)|]; repeat split; auto; lia.
+  Qed.
+
+  Lemma skip_eols_ok f : n + 3 <= f -> forall g r, Good r g -> Good (skip_eols isld B f (S g) r) g.
+  Proof.
+    intros Hf. induction g as [|g IH]; intros r HG; cbn [skip_eols].
+    - destruct r as [t st| | |]; auto. cbn in HG. lia.
+    - destruct r as [t st| | |]; auto.
+      destruct (ttype t =? TEOL)%Z eqn:E; auto.
+      apply Z.eqb_eq in E.
+      assert (HI : Inv st). { apply (Good_Inv t st (S g)); auto. left. rewrite E. discriminate. }
+      apply (Good_mono _ g); [|lia]. apply IH.
+      apply (Good_mono _ (M st)); [apply Post_Good, lnext_ok; auto|]. cbn in HG. lia.
+  Qed.
+
+  Lemma lex_loop_ok f : n + 3 <= f -> forall g r acc, Good r g ->
+    match lex_loop isld B f (S g) r acc with LexOk _ | LexErr _ _ => True | _ => False end.
+  Proof.
+    intros Hf. induction g as [|g IH]; intros r acc HG; cbn [lex_loop].
+    - destruct r as [t st| | |]; auto. cbn in HG. lia.
+    - destruct r as [t st| | |]; auto.
+      destruct ((ttype t =? TEOF)%Z && (pred (length B) <=? pos st)) eqn:E; auto.
+      assert (HI : Inv st).
+      { apply (Good_Inv t st (S g)); auto. apply andb_false_iff in E. destruct E as [E|E].
+        - left. apply Z.eqb_neq in E. auto.
+        - right. apply Nat.leb_gt in E. rewrite B_len in E. lia. }
+      apply IH. apply (Good_mono _ (M st)); [apply Post_Good, lnext_ok; auto|]. cbn in HG. lia.
+  Qed.
+
+  Lemma Inv_init : Inv init_l.
+  Proof. unfold Inv, init_l. cbn. repeat split; try lia. exists []. reflexivity. Qed.
+
+  Lemma new_lexer_ok f : n + 3 <= f -> Good (new_lexer isld B f) (M init_l).
+  Proof.
+    intro Hf. unfold new_lexer, lex_gas. rewrite B_len.
+    replace (3 * (n + 2) + 4) with (S (3 * n + 9)) by lia.
+    assert (HM : M init_l <= 3 * n + 9) by (unfold M, init_l; cbn; lia).
+    assert (H0 : Good (lnext isld B f init_l) (M init_l)) by (apply Post_Good, lnext_ok; auto using Inv_init).
+    pose proof (skip_eols_ok f Hf (3 * n + 9) _ (Good_mono _ _ _ H0 HM)) as H.
+    revert H. generalize (skip_eols isld B f (S (3 * n + 9)) (lnext isld B f init_l)). intros r H.
+    destruct r as [t st| | |]; cbn in *; auto.
+    destruct H as (H1 & H2 & H3 & H4 & H5). repeat split; auto.
+  Abort.
 End Buffer.
